@@ -17,6 +17,10 @@ CHECKS = {
    technique="TLC model checking of spec/PageTree.tla (descent loop one kid per step + inheritance walk vs DFS leaf order / nearest ancestor over all small ordered trees and 12-level chains) + replay of every tree as a real document",
    text="TLC builds every ordered page tree up to the bound with every placement of the inheritable attributes, runs the transcribed descent loop for every index 0..count+2 and checks it against the DFS leaf sequence and nearest-ancestor definition; four deviation switches (range test, leaf advance, inheritance walk, depth budget) are refuted; each tree is written as a real file and num_pages/get_page/pages/media_box/crop_box/resources are compared with the spec's expectation.",
    note="Bounded tree size and attribute placements; trusted: TLC, mkpdf, projection via /Marker, box coordinates and ExtGState names."),
+ "C13": dict(level="model_checking", design="5/C13", engine="C:resolver",
+   technique="TLC model checking of spec/Resolver.tla (all interleavings of the critical sections of StorageResolver::get and the compute-once cache; safety, deadlock, liveness under fairness) + deterministic schedule replay on real threads (baton scheduler at cfg-guarded yield points)",
+   text="TLC checks the intended design (per-thread recursion guard, compute-once cache) for 2-3 threads x 1-2 loads over acyclic, cyclic and fan-out dependency graphs in all sharing/cache modes: SequentialAnswers, NoPanic, deadlock freedom, termination under weak fairness; the shared-guard and unbounded-wait deviations are refuted. The schedules TLC enumerates (every interleaving for 2x1, transition cover for 2x2 and 3x1, random complete walks) are replayed step by step on real threads through yield points in the library; zero schedule drift is required for the binding to be meaningful and is reported.",
+   note="Bounded thread/load counts; only dependency graphs realisable with /Parent links are replayed; the instrumented cache implements the Cache trait with the SyncCache protocol (the real SyncCache is used in the probe). Needs the cfg(pdf_rs_pdf_verif) hooks."),
 }
 
 def main():
@@ -44,11 +48,12 @@ def main():
             "guard": "--cfg pdf_rs_pdf_verif",
             "enable": "harness/.cargo/config.toml sets rustflags --cfg pdf_rs_pdf_verif for the harness build, which compiles /repo/pdf through a path dependency",
             "baseline_off_cmd": "cd /repo && cargo test --workspace --no-fail-fast --offline",
-            "source_commits": [],
+            "source_commits": ["5526931"],
             "add_only": True,
         },
         "engines": [
-            {"name": "A", "path": "harness/src/rx_*.rs + spec/MC_*.tla", "serves_properties": sorted(CHECKS), "kind_free_text": "TLC enumerates bounded behaviours / input cases of a module and prints each with the spec's expected observation; the Rust harness concretises each case into real bytes / API calls against /repo/pdf and compares"},
+            {"name": "C", "path": "harness/src/sched.rs + harness/src/rx_resolver.rs + spec/MC_Resolver.tla", "serves_properties": ["C13"], "kind_free_text": "TLC enumerates interleavings of the resolver's critical sections; a baton scheduler drives real threads through exactly those interleavings using cfg-guarded yield points in StorageResolver::get and an instrumented Cache implementation"},
+            {"name": "A", "path": "harness/src/rx_*.rs + spec/MC_*.tla", "serves_properties": sorted(set(CHECKS) - {"C13"}), "kind_free_text": "TLC enumerates bounded behaviours / input cases of a module and prints each with the spec's expected observation; the Rust harness concretises each case into real bytes / API calls against /repo/pdf and compares"},
         ],
         "checks": checks,
         "not_applicable": na,
